@@ -242,7 +242,7 @@ func opResolve(t Task) Result {
 		if pos := n.GetPosition(); pos != nil {
 			s, e = pos.StartPos, pos.EndPos
 		}
-		out = append(out, map[string]interface{}{"kind": kindName(n), "s": s, "e": e, "name": name})
+		out = append(out, map[string]interface{}{"kind": kindName(n), "s": s, "e": e, "name": b2s([]byte(name))})
 	}
 	res["map"] = out
 	return res
